@@ -289,6 +289,42 @@ func genDepositHistory(t *rapid.T) DepositCase {
 	for i := range c.Batches {
 		c.Batches[i].Reimport = rapid.IntRange(0, 7).Draw(t, "reimport") == 0
 	}
+	// a third of the histories get a "key confusion" batch: a deposit to a registered key directly followed by a
+	// deposit to an unregistered key of the same type (the batch must fail)
+	if rapid.IntRange(0, 2).Draw(t, "keyConfusion") == 0 {
+		j := rapid.IntRange(0, len(c.Blocks)-1).Draw(t, "kcBlock")
+		orig := c.Blocks[j]
+		if orig.Key >= 0 && orig.CopyOf == 0 && len(c.Keys) > 0 {
+			used := map[int]bool{}
+			for _, b := range c.Blocks {
+				used[b.Depth] = true
+			}
+			depth := -1
+			for d := 1; d < 120; d++ {
+				if !used[d] {
+					depth = d
+					break
+				}
+			}
+			if depth > 0 {
+				clone := orig
+				clone.Depth, clone.Version, clone.Key, clone.CopyOf = depth, 0, -1-rapid.IntRange(0, 20).Draw(t, "kcKey"), 0
+				if clone.NTx < 2 {
+					clone.NTx = 2
+				}
+				clone.Pos = 1
+				// an unregistered key is a Schnorr key iff version 0 and an even EVM seed (see buildDepBlockReusing)
+				clone.EvmSeed = orig.EvmSeed &^ 1
+				if !c.Keys[orig.Key%len(c.Keys)].Schnorr {
+					clone.EvmSeed |= 1
+				}
+				c.Blocks = append(c.Blocks, clone)
+				at := rapid.IntRange(0, len(c.Batches)).Draw(t, "kcAt")
+				b := DepBatch{Items: []DepStep{{Block: j}, {Block: len(c.Blocks) - 1}}}
+				c.Batches = append(c.Batches[:at:at], append([]DepBatch{b}, c.Batches[at:]...)...)
+			}
+		}
+	}
 	if rapid.IntRange(0, 2).Draw(t, "phantomRoll") == 0 {
 		c.Phantom = rapid.IntRange(1, 12).Draw(t, "phantom")
 	}
